@@ -201,7 +201,7 @@ bt_en_decode_lvl(uint8_t *buf, size_t buf_size, bt_en_node_p *ret_data,
 			items_count ++;
 			cur_pos += buf_off;
 			/* Is we in buff range? */
-			if (buf_max < cur_pos) {
+			if (buf_max <= cur_pos) {
 				error = EBADMSG; /* Out of range. */
 				break;
 			}
@@ -272,7 +272,7 @@ bt_en_decode_lvl(uint8_t *buf, size_t buf_size, bt_en_node_p *ret_data,
 			items_count ++;
 			cur_pos += buf_off;
 			/* Is we in buff range? */
-			if (buf_max < cur_pos) {
+			if (buf_max <= cur_pos) {
 				error = EBADMSG; /* Out of range. */
 				break;
 			}
